@@ -240,12 +240,16 @@ struct FnGen<'a> {
     /// this function never overwrites the return register outside calls, so return values of extern
     /// calls reach several return sites (the CWE252 / CWE476 "lost return value" shapes)
     keep_rax: bool,
+    /// instructions to be emitted at the start of the NEXT block (uses of values computed in this one)
+    carry: Vec<Vec<Op>>,
 }
 
 fn writes_rax(ins: &[Op]) -> bool {
     ins.iter().any(|o| matches!(o.lhs["name"].as_str(), Some("RAX") | Some("EAX") | Some("AX") | Some("AL") | Some("AH")))
 }
 
+/// symbols whose return value must be used according to the shipped configuration (CWE252)
+const MUST_USE: [&str; 10] = ["sscanf", "system", "chroot", "chdir", "setuid", "setresuid", "access", "fgets", "read", "atoi"];
 const GP: [&str; 8] = ["RAX", "RBX", "RCX", "RDX", "RSI", "RDI", "R8", "R12"];
 const ARITH: [&str; 9] = ["INT_ADD", "INT_SUB", "INT_AND", "INT_OR", "INT_XOR", "INT_MULT", "INT_LEFT", "INT_RIGHT", "INT_SRIGHT"];
 
@@ -408,19 +412,41 @@ impl<'a> FnGen<'a> {
             let other = if self.rng.chance(2, 3) { self.r64() } else { cst(self.small_const(), 8) };
             v.push(vec![bin(reg(acc, 8), m, reg(acc, 8), other)]);
         }
-        // use the value: as an address and as a parameter candidate
+        // use the value: as an address and as a parameter candidate, in this block or in the next one
+        let use_ = if self.rng.chance(1, 2) { vec![load(self.r64(), reg(acc, 8))] } else { vec![copy(reg("RDI", 8), reg(acc, 8))] };
         if self.rng.chance(1, 2) {
-            v.push(vec![load(self.r64(), reg(acc, 8))]);
+            self.carry.push(use_);
         } else {
-            v.push(vec![copy(reg("RDI", 8), reg(acc, 8))]);
+            v.push(use_);
         }
         v
     }
+    /// Two dependent assignments `y = f(z); x = g(y)` whose values survive into the successor block, where x is used
+    /// as the address of memory accesses (inter-block expression propagation with a table of several entries).
+    fn pair(&mut self) -> Vec<Vec<Op>> {
+        let regs = ["RAX", "RBX", "RCX", "RDX", "RSI", "RDI", "R8", "R12"];
+        let z = *self.rng.pick(&regs);
+        let mut y = *self.rng.pick(&regs);
+        while y == z { y = *self.rng.pick(&regs); }
+        let mut x = *self.rng.pick(&regs);
+        while x == z || x == y { x = *self.rng.pick(&regs); }
+        let m1 = *self.rng.pick(&["INT_ADD", "INT_SUB", "INT_XOR"]);
+        let m2 = *self.rng.pick(&["INT_ADD", "INT_SUB"]);
+        let first = if self.rng.chance(1, 3) { copy(reg(y, 8), cst(self.small_const(), 8)) } else { bin(reg(y, 8), m1, reg(z, 8), cst(8 * self.rng.below(5), 8)) };
+        let v = vec![vec![first], vec![bin(reg(x, 8), m2, reg(y, 8), cst(8 * self.rng.below(5), 8))]];
+        let t = tmp("$U3300", 8);
+        let val = self.r64();
+        self.carry.push(vec![bin(t.clone(), "INT_ADD", reg(x, 8), cst(8, 8)), store(t, val.clone())]);
+        self.carry.push(vec![store(reg(x, 8), val)]);
+        v
+    }
     fn straight(&mut self, n: u64) -> Vec<Vec<Op>> {
-        let mut v: Vec<Vec<Op>> = Vec::new();
+        let mut v: Vec<Vec<Op>> = std::mem::take(&mut self.carry);
         for _ in 0..n {
             if self.rng.chance(1, 12) {
                 v.extend(self.chain());
+            } else if self.rng.chance(1, 12) {
+                v.extend(self.pair());
             } else if self.rng.chance(1, 3) {
                 v.push(self.mem());
             } else {
@@ -451,7 +477,7 @@ pub fn gen_funcs(rng: &mut Rng, knobs: &Knobs) -> ProjectSpec {
     let mut must: Vec<usize> = externs.iter().cloned().filter(|i| knobs.must_call.contains(&voc[*i].name)).collect();
     let mut funcs = Vec::new();
     for me in 0..knobs.n_funcs {
-        let mut g = FnGen { rng, externs: &externs, voc: &voc, strs: &strs, n_funcs: knobs.n_funcs, me, blocks: Vec::new(), keep_rax: false };
+        let mut g = FnGen { rng, externs: &externs, voc: &voc, strs: &strs, n_funcs: knobs.n_funcs, me, blocks: Vec::new(), keep_rax: false, carry: Vec::new() };
         g.keep_rax = g.rng.chance(1, 3);
         // prologue block
         let frame = 0x18 + 0x10 * g.rng.below(4);
@@ -479,7 +505,14 @@ pub fn gen_funcs(rng: &mut Rng, knobs: &Knobs) -> ProjectSpec {
             let choice = if want_ext { 0 } else { g.rng.below(10) };
             let term = match choice {
                 0 | 1 | 2 => {
-                    let sym = if want_ext { pending_must.pop().unwrap() } else { *g.rng.pick(g.externs) };
+                    let must_use: Vec<usize> = g.externs.iter().cloned().filter(|i| MUST_USE.contains(&g.voc[*i].name)).collect();
+                    let sym = if want_ext {
+                        pending_must.pop().unwrap()
+                    } else if g.keep_rax && !must_use.is_empty() && g.rng.chance(2, 3) {
+                        *g.rng.pick(&must_use)
+                    } else {
+                        *g.rng.pick(g.externs)
+                    };
                     let s = &g.voc[sym];
                     let setup = g.arg_setup(s);
                     instrs.extend(setup);
@@ -487,8 +520,9 @@ pub fn gen_funcs(rng: &mut Rng, knobs: &Knobs) -> ProjectSpec {
                     let ret = if s.no_return && g.rng.chance(1, 2) { None } else { Some(next) };
                     Term::CallExt { sym, ret }
                 }
-                3 if g.n_funcs > 1 => {
-                    let f = g.rng.below(g.n_funcs as u64) as usize;
+                3 if g.n_funcs > 2 => {
+                    // function 0 (main) and the last function are roots: never called from inside the binary
+                    let f = 1 + g.rng.below(g.n_funcs as u64 - 2) as usize;
                     for p in INT_PARAMS.iter().take(g.rng.below(3) as usize) {
                         let src = if g.rng.chance(1, 2) { g.r64() } else { cst(g.small_const(), 8) };
                         instrs.push(vec![copy(reg(p, 8), src)]);
